@@ -27,18 +27,19 @@ type Opts struct {
 
 // M is one emulated machine.
 type M struct {
-	I      *interrupts.Interrupts
-	OAM    *oam.OAM
-	A      *audio.Audio
-	P      *ppu.PPU
-	S      *serial.Serial
-	T      *timer.Timer
-	C      *controller.Controller
-	Map    *memory.Mapper
-	CPU    *cpu.CPU
-	Serial *bytes.Buffer
-	L, R   chan float32
-	Cycles int64
+	I        *interrupts.Interrupts
+	OAM      *oam.OAM
+	oamBytes *[160]uint8
+	A        *audio.Audio
+	P        *ppu.PPU
+	S        *serial.Serial
+	T        *timer.Timer
+	C        *controller.Controller
+	Map      *memory.Mapper
+	CPU      *cpu.CPU
+	Serial   *bytes.Buffer
+	L, R     chan float32
+	Cycles   int64
 }
 
 // New builds a machine around the given cartridge image. It panics if the real
